@@ -315,6 +315,20 @@ def judge_cfg(cfg, case=None, deep=True):
         eps = 1e-9 * max(fs, 1)
         inside = ((ftrue > lb + eps) & (ftrue < ub - eps)) | (k == 0)
         outside = ((ftrue < lb - eps) | (ftrue > ub + eps)) & (k != 0)
+        # bins whose frequency the binary64 formula (k/n)*Fs yields EXACTLY (dyadic n and Fs, …) are judged on the
+        # closed band [lb, ub] with no tolerance: a bin exactly on an edge (incl. the Nyquist bin for ub=None) is kept
+        from fractions import Fraction as Fr
+        for kk_ in range(1, n):
+            kh = min(kk_, n - kk_)
+            if Fr(float(kh) / n) == Fr(kh, n) and Fr((float(kh) / n) * fs) == Fr(kh, n) * Fr(fs):
+                fe = Fr(kh, n) * Fr(fs)
+                ube = Fr(fs) / 2 if cfg['ub'] is None else Fr(cfg['ub'])
+                if Fr(lb) <= fe <= ube:
+                    inside[kk_] = True
+                    outside[kk_] = False
+                else:
+                    outside[kk_] = True
+                    inside[kk_] = False
         tol = 1e-9 * np.abs(X).max()
         bad_in = np.abs(Y - X)[:, inside].max() if inside.any() else 0
         bad_out = np.abs(Y)[:, outside].max() if outside.any() else 0
